@@ -175,6 +175,11 @@ def run(tier, seed):
     for src, obj in FIXED:
         cases.append(dict(src=src, op='sizeof'))
         checks.append((src, {}, obj))
+    # two-feature interactions: every wrapper class over every kind of inner construct
+    for src, obj in C.pairs():
+        if C.constructible(src):
+            cases.append(dict(src=src, op='sizeof'))
+            checks.append((src, {}, obj))
     n = 500 if tier == 'quick' else 5000
     for _ in range(n):
         node = G.g_node(rng, rng.choice([0, 1, 2, 2, 3]), True)
